@@ -5,6 +5,7 @@ import (
 	"fmt"
 
 	"github.com/dgraph-io/badger/v2"
+	"github.com/vipnode/vipnode/v2/simhook"
 )
 
 // MigrateLatest converts the database to the latest version that we know of.
@@ -80,6 +81,7 @@ func (m *Migration) Migrate(db *badger.DB) error {
 				return m.error(err, v)
 			}
 			v = nextVersion
+			simhook.Yield("badger.Migrate.step")
 		}
 
 		return nil
